@@ -611,6 +611,7 @@ type Req struct {
 	Form        [][2]string `json:"form"`
 	BadBody     bool        `json:"badbody"`
 	RawOverride string      `json:"-"`
+	Hdr         [][2]string `json:"-"`
 }
 
 var routePaths = map[string]string{
@@ -717,6 +718,9 @@ func (w *World) do(r Req) (o respObs) {
 	hr := httptest.NewRequest(r.Method, "http://site.test"+target, body)
 	if ct != "" {
 		hr.Header.Set("Content-Type", ct)
+	}
+	for _, kv := range r.Hdr {
+		hr.Header.Set(kv[0], kv[1])
 	}
 	hr.Header.Set("X-Browser", r.Browser)
 	rec := &nopWriter{ResponseRecorder: httptest.NewRecorder()}
